@@ -229,14 +229,20 @@ func (c *checker) partF() {
 			}
 			subsets = append(subsets, s)
 		}
+		parked := [][]string{{"parked"}}
+		both := []string{"", "cancel-resume"}
 		jobs = []job{
-			{"memory-noret", allRestarts, subsets, []string{"route2", "same", "target2"}, []bool{true, false}, []int{1100, 1500}, []int{1}, false},
-			{"memory", allRestarts, append(single, all4), []string{"route2", "same", "target2"}, []bool{true, false}, []int{1100, 1500}, []int{1}, false},
-			{"memory", allRestarts, single, []string{"route2", "same"}, []bool{true}, []int{1500, 4200}, []int{2}, false},
-			{"memory-noret", allRestarts, append(single, all4), []string{"route2", "same"}, []bool{true}, []int{1500, 4200}, []int{2}, false},
+			{"memory-noret", allRestarts, subsets, []string{"route2", "same", "target2"}, []bool{true}, []int{1500}, []int{1}, false},
+			{"memory-noret", allRestarts, parked, []string{"route2", "same", "target2"}, []bool{false}, []int{1100, 4200}, []int{1}, false},
+			{"memory", allRestarts, single, []string{"route2", "same", "target2"}, []bool{true}, []int{1500}, []int{1}, false},
+			{"memory", allRestarts, parked, []string{"route2", "same", "target2"}, []bool{false}, []int{1100, 2600}, []int{1}, false},
+			{"memory", both, [][]string{all4}, []string{"route2"}, []bool{true}, []int{1100}, []int{1}, false},
+			{"memory-noret", allRestarts, append(single, all4), []string{"route2", "same"}, []bool{true}, []int{1500}, []int{2}, false},
+			{"memory", allRestarts, parked, []string{"route2", "same"}, []bool{true}, []int{1500}, []int{2}, false},
 			{"memory-nobatch", allRestarts, single, []string{"same"}, []bool{true}, []int{1500}, []int{1}, false},
-			{"sqlite", allRestarts, single, []string{"route2", "same", "target2"}, []bool{true}, []int{1500}, []int{1}, true},
-			{"sqlite-noret", allRestarts, [][]string{{"parked"}}, []string{"route2", "same"}, []bool{true}, []int{1500}, []int{1, 2}, true},
+			{"sqlite", allRestarts, parked, []string{"route2", "same", "target2"}, []bool{true}, []int{1500}, []int{1}, true},
+			{"sqlite", both, single[1:], []string{"route2"}, []bool{true}, []int{1500}, []int{1}, true},
+			{"sqlite-noret", allRestarts, parked, []string{"route2"}, []bool{true}, []int{1500}, []int{1}, true},
 		}
 	}
 	for _, j := range jobs {
@@ -263,6 +269,20 @@ func (c *checker) partF() {
 					for _, on := range j.ons {
 						for _, mixed := range j.mixed {
 							for _, n := range j.ns {
+								if restart == "requeue-filter" && on == "same" && mixed {
+									// the filter action handles at most 1000 messages per call: the judged dead letters and
+									// the dead other traffic on the same target must fit into one call
+									before := 0
+									for _, a := range at {
+										if a != "restarted" {
+											before++
+										}
+									}
+									if len(msgs)+before*(n/8+1) > 1000 {
+										r.Add("f_combinations_beyond_the_filter_limit_of_1000", 1)
+										continue
+									}
+								}
 								if c.expired() {
 									return
 								}
@@ -347,6 +367,7 @@ func (c *checker) partG() {
 		tripleKinds = []int{0, 1, 2, 3, 4, 5, 6, 7}
 		layouts = map[int][]string{2: {"one-route", "own-routes"}, 3: {"one-route", "own-routes", "2+1"}}
 		concs = []int{1, 2}
+		stores = []string{"memory", "sqlite"}
 	}
 	mismatch := 0
 	for _, n := range []int{2, 3} {
@@ -400,6 +421,9 @@ func (c *checker) partG() {
 								for _, store := range stores {
 									if c.expired() {
 										return
+									}
+									if store != "memory" && !(n == 2 && df.name == "written" && sc.name == "fail" && conc == 1) {
+										continue // the store is not what this part varies: SQLite only on the cheapest slice
 									}
 									sp := Spec{Part: "g", Store: store, Targets: targets, Conc: conc, HTTP: true, U: u, MaxPerLife: 14, Defaults: df.d}
 									for pos, t := range targets {
